@@ -109,10 +109,10 @@ def c15(run):
     run.rule = ("n_queens_gen -n n for n = %d..%d: real output -> real parser -> tree; MC_Models: every model found by the pruned search is a "
                 "solution (Sound) and every solution of Puzzles!QueensSolutions satisfies the tree (Complete); larger n (to %d): every reference "
                 "solution satisfies the formula and every attacking pair / row / column is covered by a counting list (Trace_Puzzle); end to "
-                "end rsbdd -t -ft rows = solutions for small n; non-trivial = n >= 4") % (exact[0], exact[-1], 24 if t else 12)
+                "end rsbdd -t -ft rows = solutions for small n; non-trivial = n >= 4") % (exact[0], exact[-1], 32 if t else 16)
     d = fresh_dir(run.prop, "gen")
     files = {}
-    for n in list(exact) + ([11, 12, 16, 24] if t else [8, 9, 12]):
+    for n in list(exact) + ([11, 12, 13, 16, 20, 24, 32] if t else [8, 9, 10, 11, 12, 13, 16]):
         f = os.path.join(d, "q%d.txt" % n)
         # alternate between the output-file form and stdout
         if n % 2 == 0:
@@ -345,9 +345,40 @@ def c17(run):
                     i2 = rnd.choice([j for j in range(81) if j != i1 and h[j] != h[i1] and (j // 9 == i1 // 9 or j % 9 == i1 % 9)])
                     h[i1], h[i2] = h[i2], h[i1]
                     bad.append(h)
+            # grids that keep every row and column but break boxes (two rows of different bands swapped), and the
+            # analogous ones for rows / columns (transposed band swap)
+            for g in good:
+                h = g[:]
+                r1, r2 = rnd.randrange(0, 3), rnd.randrange(3, 9)
+                h[r1 * 9:(r1 + 1) * 9], h[r2 * 9:(r2 + 1) * 9] = g[r2 * 9:(r2 + 1) * 9], g[r1 * 9:(r1 + 1) * 9]
+                bad.append(h)
+                h2 = g[:]
+                c1, c2 = rnd.randrange(0, 3), rnd.randrange(3, 9)
+                for rr in range(9):
+                    h2[rr * 9 + c1], h2[rr * 9 + c2] = g[rr * 9 + c2], g[rr * 9 + c1]
+                bad.append(h2)
             fh.write(json.dumps({"k": "sudoku_sound", "r": 3, "hints": hints, "names": names9, "ast": index_tree(a["tree"], idx9),
                                  "good": good, "bad": bad}) + "\n")
-    acc, rej, tlcs, lines = validate_trace("Trace_Puzzle", tr, {"NV": 1}, os.path.join(run.prop, "tv_r3"), shards=2, timeout=3000, extra_cfg="CONSTANT NameSeq <- NS1", xmx="6g")
+            fh.write(json.dumps({"k": "sudoku_cover", "r": 3, "hints": hints, "names": names9, "ast": index_tree(a["tree"], idx9)}) + "\n")
+    with open(tr, "a") as fh:
+        for r4 in ((2, 4) if t else (2,)):
+            f4 = os.path.join(d, "s_cover_r%d.txt" % r4)
+            sq4 = r4 * r4
+            txt4 = "".join(str(rnd.randint(1, min(9, sq4))) if rnd.random() < 0.2 else "." for _ in range(sq4 * sq4))
+            rc4, out4, err4 = run_gen("sudoku_gen", ["-r", str(r4)], stdin=txt4.encode())
+            open(f4, "wb").write(out4)
+            a4 = parse_asts([f4])[f4]
+            if a4.get("ok"):
+                names4 = ["_%d_is_%d" % (c, dd) for c in range(sq4 * sq4) for dd in range(1, sq4 + 1)]
+                idx4 = {nm: k + 1 for k, nm in enumerate(names4)}
+                try:
+                    fh.write(json.dumps({"k": "sudoku_cover", "r": r4, "hints": sudoku_hints(txt4, r4), "names": names4,
+                                         "ast": index_tree(a4["tree"], idx4)}) + "\n")
+                except (KeyError, ValueError) as ex:
+                    run.violation("sudoku:names:r%d" % r4, "unexpected variables in -r %d output: %s" % (r4, ex), {"mode": "sudoku", "r": r4, "text": txt4})
+            else:
+                run.violation("sudoku:parse:r%d" % r4, "sudoku_gen -r %d output is not a formula" % r4, {"mode": "sudoku", "r": r4, "text": txt4})
+    acc, rej, tlcs, lines = validate_trace("Trace_Puzzle", tr, {"NV": 1}, os.path.join(run.prop, "tv_r3"), shards=4, timeout=3000, extra_cfg="CONSTANT NameSeq <- NS1", xmx="6g")
     for i, r in enumerate(tlcs):
         run.add_tlc("trace_r3_%d" % i, r, require_actions=["Step"])
     run.impl_traces += acc
